@@ -55,6 +55,7 @@ package tredactemail
 //@   ensures  result == -1 || (atIndex < result && result <= len(src))
 //@   ensures[span-of-address-chars] result != -1 ==> (forall k int :: atIndex < k && k < result ==> isaddr(src[k])) && (result == len(src) || !isaddr(src[result]))
 //@   ensures[dotted-unless-truncated] result != -1 && result < len(src) ==> exists d int :: atIndex < d && d + 1 < result && src[d] == 46 && isword(src[d+1])
+//@   ensures[numeric-looking-domain-is-not-an-address] result != -1 && result - atIndex - 1 >= 2 ==> !(isdig(src[atIndex+1]) && isdig(src[result-1]))
 //@   ensures[truncated-domain-accepted] (forall k int :: atIndex < k && k < len(src) ==> isaddr(src[k]) && src[k] != 46) && !(len(src) - atIndex - 1 >= 2 && isdig(src[atIndex+1]) && isdig(src[len(src)-1])) ==> result == len(src)
 //@   loop 1: invariant atIndex + 1 <= i && i <= len(src) && dotIndex == -1 && forall k int :: atIndex < k && k < i ==> isaddr(src[k]) && src[k] != 46
 //@   loop 1: decreases len(src) - i
